@@ -250,14 +250,22 @@ func wfBack(kind string, back interface{}) bool {
 		return wfSv(obsSvRV(reflect.ValueOf(back)))
 	case "dm":
 		m := obsDm(back)
-		return m.Rows >= 0 && m.Cols >= 0 && int64(len(m.Vals)) == m.Rows*m.Cols && m.Rmax == m.Rows && m.Cmax == m.Cols &&
+		return m.Rows >= 0 && m.Cols >= 0 && exactProduct(m.Rows, m.Cols, int64(len(m.Vals))) && m.Rmax == m.Rows && m.Cmax == m.Cols &&
 			m.Roff == 0 && m.Coff == 0 && !m.Tr && wfElems(m.Vals)
 	case "sm":
 		m := obsSm(back)
-		return m.Rows >= 0 && m.Cols >= 0 && m.St.N == m.Rows*m.Cols && wfSv(m.St) && m.Rmax == m.Rows && m.Cmax == m.Cols &&
+		return m.Rows >= 0 && m.Cols >= 0 && exactProduct(m.Rows, m.Cols, m.St.N) && wfSv(m.St) && m.Rmax == m.Rows && m.Cmax == m.Cols &&
 			m.Roff == 0 && m.Coff == 0
 	}
 	return true
+}
+
+// a*b == p over the integers (a, b >= 0), no wrap-around
+func exactProduct(a, b, p int64) bool {
+	if a == 0 || b == 0 {
+		return p == 0
+	}
+	return p >= 0 && p%b == 0 && p/b == a
 }
 
 // why a document is malformed, from the document alone (labels sorted, '+'-joined)
@@ -359,7 +367,9 @@ func docCause(kind string, et EType, data []byte) string {
 			if r.Rows < 0 || r.Cols < 0 {
 				c = append(c, "neg-dim")
 			}
-			if int64(len(r.Values)) != r.Rows*r.Cols {
+			if r.Rows >= 0 && r.Cols >= 0 && !exactProduct(r.Rows, r.Cols, r.Rows*r.Cols) {
+				c = append(c, "dim-overflow")
+			} else if int64(len(r.Values)) != r.Rows*r.Cols {
 				c = append(c, "len!=rows*cols")
 			}
 			c = append(c, elemDocCauses(et, r.Values)...)
@@ -390,17 +400,47 @@ func oracleMalformed(rc Recipe, et EType, kind string, gr Outcome, back interfac
 
 // ---------------------------------------------------------------- constant scalars (fatal stack overflow: run in a child process)
 
-func runConst(rc Recipe, et EType) (res Result) {
+// MarshalJSON of a constant type once recursed without end (fatal stack overflow, not recoverable): the first
+// case of every type runs in a child process; once a child has returned, that type is marshalled in-process
+var constReturned = map[string]bool{}
+
+func constWrite(rc Recipe, et EType) (string, error) {
+	if constReturned[et.Name] {
+		var data []byte
+		k, msg := guard(func() error {
+			var err error
+			data, err = json.Marshal(build(rc, et))
+			return err
+		})
+		switch k {
+		case "ok":
+			return "OK " + string(data), nil
+		case "err":
+			return "ERR " + msg, nil
+		}
+		return "PANIC " + msg, nil
+	}
 	b, _ := json.Marshal(rc)
 	cmd := exec.Command(os.Args[0], "--extra", "constchild:"+string(b))
 	out, err := cmd.CombinedOutput()
+	if err == nil {
+		constReturned[et.Name] = true
+	}
+	return string(out), err
+}
+
+func runConst(rc Recipe, et EType) (res Result) {
+	s, err := constWrite(rc, et)
 	gw := Outcome{Kind: "crash", Msg: "child died"}
-	s := string(out)
+	var data []byte
 	switch {
 	case err == nil && strings.HasPrefix(s, "OK "):
-		term, ok := decDoc("plain", et, []byte(strings.TrimSpace(s[3:])))
+		data = []byte(strings.TrimSpace(s[3:]))
+		term, ok := decDoc("plain", et, data)
 		if ok {
 			gw = Outcome{Kind: "ok", Term: term}
+		} else {
+			gw = Outcome{Kind: "crash", Msg: "writer output not decodable: " + string(data)}
 		}
 	case err == nil && strings.HasPrefix(s, "ERR"):
 		gw = Outcome{Kind: "err", Msg: s}
@@ -410,12 +450,40 @@ func runConst(rc Recipe, et EType) (res Result) {
 		gw = Outcome{Kind: "crash", Msg: "fatal error: stack overflow"}
 	}
 	obj := build(rc, et)
-	res.Coq = fmt.Sprintf("RtConst %s %s", stateCoq("const", et, obj, true), gw.Coq())
-	res.Key = "const/" + rc.Type + "/" + gw.Kind
-	res.Nontriv = true
+	// there is no UnmarshalJSON for the constant types: the number is read back into the mutable scalar
+	// of the same number type
+	gr := Outcome{Kind: "err"}
+	var back interface{}
+	if gw.Kind == "ok" {
+		target, get := freshTarget("plain", et)
+		rk, rmsg := guard(func() error { return json.Unmarshal(data, target) })
+		gr = Outcome{Kind: rk, Msg: rmsg}
+		if rk == "ok" {
+			back = get()
+			gr.Term = stateCoq("plain", et, back, false)
+		}
+	}
+	res.Coq = fmt.Sprintf("RtConst %s %s %s", stateCoq("const", et, obj, true), gw.Coq(), gr.Coq())
+	res.Key = "const/" + rc.Type + "/" + gw.Kind + "/" + gr.Kind + fmt.Sprintf("/%d", len(data))
+	res.Nontriv = gw.Kind == "ok" && gr.Kind == "ok"
 	res.Hist = []string{"rt/const/" + rc.Type, "write:" + gw.Kind}
-	if gw.Kind != "ok" {
-		res.Failures = []Failure{{Site: "const.MarshalJSON", Kind: "write-" + gw.Kind, Detail: gw.Msg, Type: rc.Type}}
+	fail := func(site, k, detail string) {
+		res.Failures = []Failure{{Site: "const." + site, Kind: k, Detail: detail, Type: rc.Type}}
+	}
+	finite := rc.Els[0].P.Finite()
+	switch {
+	case gw.Kind != "ok":
+		if finite || gw.Kind != "err" {
+			fail("MarshalJSON", "write-"+gw.Kind, gw.Msg)
+		}
+	case gr.Kind != "ok":
+		res.Hist = append(res.Hist, "read:"+gr.Kind)
+		fail("UnmarshalJSON", "roundtrip-"+gr.Kind, gr.Msg)
+	default:
+		res.Hist = append(res.Hist, "read:ok")
+		if d := cmpScalar(et, obj.(ad.ConstScalar), back.(ad.ConstScalar), true); d != "" {
+			fail("UnmarshalJSON", "roundtrip-mismatch", d)
+		}
 	}
 	return res
 }
